@@ -109,7 +109,7 @@ type c16Disp struct {
 	ctx      func() context.Context
 	add      func(func() error)
 	post     []c16Op         // every public method, for the after-close pass
-	counts   []*atomic.Int32   // one per pre-registered handler
+	counts   []*atomic.Int32 // one per pre-registered handler
 	parent   context.CancelFunc
 }
 
@@ -198,7 +198,7 @@ func TestVerifC16Dispose(t *testing.T) {
 	for _, kd := range kinds {
 		run.Floor("overlap_runs_"+kd, 100)
 	}
-	for trial := 0; trial < n && run.Violations() < 20; trial++ {
+	for trial := 0; trial < n && run.Violations() < 20 && run.Counter("leak_violations") < 3; trial++ {
 		kind := kinds[trial%len(kinds)]
 		path := paths[r.Intn(len(paths))]
 		k := ks[r.Intn(len(ks))]
